@@ -594,6 +594,37 @@ func (a *Act) callByContract(st *State, callee *ssa.Function, fc *FuncContract, 
 			fail("address of %s passed to %s (needs a first-class pointer)", locDesc(v.Loc), callee)
 		}
 	}
+	// A statically known function under contract handed over for a parameter the callee declares `pure`: the callee's
+	// contract speaks about it through apply(value, args). The value is replaced by a fresh function value (one
+	// per call site: apply is not a function of the heap, so the link below must not be shared between states),
+	// and after the call apply(value, x, y) is linked to that function's own contract in the state after the call.
+	type pureLink struct {
+		fv Term
+		fn *ssa.Function
+	}
+	var links []pureLink
+	if len(fc.Pure) > 0 && !a.spec {
+		args = append([]Val{}, args...)
+		for _, pn := range fc.Pure {
+			for i, p := range callee.Params {
+				if p.Name() != pn || i >= len(args) || args[i].Fn == nil || len(args[i].Env) > 0 || len(args[i].Fn.FreeVars) > 0 {
+					continue
+				}
+				cfc := u.E.Contracts[args[i].Fn]
+				if cfc == nil || cfc.Trusted || cfc.NoFrame || args[i].Fn.Signature.Results().Len() != 1 {
+					continue
+				}
+				fv := u.D.Fresh("fnval", "Int")
+				links = append(links, pureLink{fv, args[i].Fn})
+				args[i] = Val{T: fv, Typ: args[i].Typ}
+			}
+		}
+	}
+	defer func() {
+		for _, l := range links {
+			a.linkPureValue(st, l.fv, l.fn)
+		}
+	}()
 	pre := st.clone()
 	penv := a.fnEnv(callee, args, env, pre, pre, nil)
 	a.bindPure(penv, callee, fc, args)
@@ -732,6 +763,46 @@ func (a *Act) callByContract(st *State, callee *ssa.Function, fc *FuncContract, 
 		o.Smoke = true
 	}
 	return res
+}
+
+// linkPureValue: for all arguments that satisfy fn's preconditions, apply(fv, args) satisfies fn's postconditions
+// (those that do not mention the trace), read in the state st.
+func (a *Act) linkPureValue(st *State, fv Term, fn *ssa.Function) {
+	u := a.u
+	d := u.D
+	fc := u.E.Contracts[fn]
+	*a.top.qnPtr()++
+	var binders []string
+	var args []Val
+	for i, p := range fn.Params {
+		v := fmt.Sprintf("pv%d!l%d", i, *a.top.qnPtr())
+		binders = append(binders, fmt.Sprintf("(%s %s)", v, d.SortOf(p.Type())))
+		args = append(args, Val{T: Term(v), Typ: p.Type()})
+	}
+	rt := a.applyPure(fv, args, fn.Signature)
+	var pres, posts []Term
+	nFacts, nConsts := len(u.Facts), d.n
+	err := catch(func() {
+		env := a.fnEnv(fn, args, nil, st, st, []Val{{T: rt.T, Typ: fn.Signature.Results().At(0).Type()}})
+		for _, cl := range fc.Clauses {
+			if cl.Loop != 0 || mentionsTrace(cl.Expr) {
+				continue
+			}
+			switch cl.Kind {
+			case "requires":
+				pres = append(pres, a.evalClause(env, cl))
+			case "ensures":
+				posts = append(posts, a.evalClause(env, cl))
+			}
+		}
+	})
+	side := append([]Term{}, u.Facts[nFacts:]...)
+	u.Facts = u.Facts[:nFacts]
+	if err != nil || len(posts) == 0 || d.n != nConsts {
+		return
+	}
+	u.Trusted["the function value "+fnName(fn)+" handed over as a pure parameter behaves as its contract says (its result is a function of its arguments in the state after the call)"] = true
+	u.Fact(fmt.Sprintf("(forall (%s) (! (=> %s %s) :pattern (%s)))", strings.Join(binders, " "), and(pres...), and(append(side, posts...)...), rt.T))
 }
 
 // bindPure: pure function parameters are callable in specifications through the parameter name (handled
